@@ -88,14 +88,15 @@ func TestMain(m *testing.M) {
 	switch {
 	case isFuzzInvocation():
 		applyGuard()
-		if isFuzzWorker() {
-			electStatsWriter()
-		} else {
-			os.Unsetenv("VERIF_STATS_OUT") // the coordinator executes no cases
+		worker := isFuzzWorker()
+		if worker {
+			workerStatsFile()
 		}
 		code := m.Run()
 		scratch.Sweep()
-		ev.Flush()
+		if worker {
+			ev.Flush() // the coordinator executes no cases and must not overwrite the workers' file
+		}
 		os.Exit(code)
 	case os.Getenv(envChild) == "1":
 		applyGuard()
@@ -109,21 +110,23 @@ func TestMain(m *testing.M) {
 	}
 }
 
-// electStatsWriter lets exactly one fuzz worker write the evidence file (the
-// workers share VERIF_STATS_OUT; the counts are therefore a lower bound, the
-// driver additionally records the engine's exec count).
-func electStatsWriter() {
-	out := os.Getenv("VERIF_STATS_OUT")
-	if out == "" {
-		return
+// workerStatsFile gives every fuzz worker its own evidence file (the workers
+// of one target share VERIF_STATS_OUT). Workers are stopped by the engine
+// without a guaranteed orderly exit, so the fuzz targets also flush every
+// few thousand executions (fuzzTick); TestNativeFuzz folds the files.
+func workerStatsFile() {
+	if out := os.Getenv("VERIF_STATS_OUT"); out != "" {
+		os.Setenv("VERIF_STATS_OUT", fmt.Sprintf("%s.w%d", out, os.Getpid()))
 	}
-	f, err := os.OpenFile(out+".owner", os.O_CREATE|os.O_EXCL|os.O_WRONLY, 0o644)
-	if err != nil {
-		os.Unsetenv("VERIF_STATS_OUT")
-		return
+}
+
+var fuzzExecs int
+
+func fuzzTick() {
+	fuzzExecs++
+	if fuzzExecs%20000 == 0 {
+		ev.Flush()
 	}
-	fmt.Fprintf(f, "%d\n", os.Getpid())
-	f.Close()
 }
 
 // ---------------------------------------------------------------------------
